@@ -2,6 +2,9 @@
 //! (C01, C05, C06, C08, C12, C15). One binary per feature configuration (`sdoc` = default,
 //! `sdocx` = grammar-extras); the parent (`sdoc`) runs worker pools of both and merges.
 mod c01;
+mod c04;
+#[path = "../../c04/src/views.rs"]
+mod views;
 mod c05;
 mod c06;
 mod c08;
@@ -33,6 +36,12 @@ fn worker_main(cfg: &Cfg, mut w: Worker) -> ! {
         "C01" => {
             let slices = corpus::standard(cfg.quick(), scale);
             corpus::for_each_grammar(&slices, &mut w, &mut stats, |p, st| c01::check_grammar(p, &known, st));
+        }
+        "C04" => {
+            let slices = corpus::small(cfg.quick());
+            let mut seen = std::collections::HashSet::new();
+            corpus::for_each_grammar(&slices, &mut w, &mut stats, |p, st| c04::check_grammar(p, &known, st, &mut seen));
+            stats.add("distinct_parse_trees", seen.len() as u64);
         }
         "C05" => {
             let slices = corpus::standard(cfg.quick(), scale - 1);
@@ -119,6 +128,10 @@ fn main() {
         let ev = s.get("evaluations");
         stats.add(&format!("evaluations.{name}"), ev);
         stats.merge(s);
+    }
+    if cfg.has("--emit-stats") {
+        println!("@STATS {}", stats.to_json());
+        return;
     }
     let (level, rule, assumptions): (&str, &str, Vec<String>) = match property.as_str() {
         "C01" => (
